@@ -278,7 +278,7 @@ func checkHub(c hubCfg, x *vrt.Exec) []explore.Finding {
 func main() {
 	run := evid.Start("C13", "model_checking")
 	var scs []*explore.Scenario
-	pbQ, pbT := 2, 4
+	pbQ, pbT := 3, 4
 	pb := evid.Pick(run, pbQ, pbT)
 	for _, kind := range []string{"tell", "ask"} {
 		cfgs := []hubCfg{
